@@ -503,4 +503,7 @@ static inline void *L0_SimpleAllocator__reallocate__pv_u64_u64(void *a, void *p,
 static inline void L0_terminate(void) { L0_assert(0, "C13 C17: no exception escapes a noexcept function (std::terminate)"); }
 static inline void L0_missing_return(void) { L0_assert(0, "C15 C16: control reaches the end of a non-void function"); }
 
+#ifdef WITH_SETS
+#include "l0_sets.h"
+#endif
 #endif
